@@ -4,7 +4,7 @@ use super::faults::walk_expr_mut;
 use super::ir::*;
 use crate::engine::Tape;
 
-pub const REWRITES: &[&str] = &["alpha-rename", "permute-classes", "permute-members", "wrap-paren", "wrap-block", "drop-let-annotation", "drop-lambda-annotation", "drop-type-arguments", "split-module"];
+pub const REWRITES: &[&str] = &["alpha-rename", "permute-classes", "permute-members", "wrap-paren", "wrap-block", "drop-let-annotation", "drop-lambda-annotation", "drop-type-arguments", "split-module", "reuse-names", "annotate-lambda"];
 
 fn rename_pat(p: &mut Pat, f: &dyn Fn(&str) -> String) {
   match p {
@@ -138,6 +138,113 @@ fn member_bodies(p: &mut ProgramIr) -> Vec<&mut Expr> {
   v
 }
 
+/// binds the variables of a pattern at successive levels (`zz<level>`); the alternatives of an
+/// or-pattern bind the same names
+fn level_bind(p: &mut Pat, env: &mut Vec<(String, String)>) {
+  match p {
+    Pat::Var(n, _) => {
+      if let Some((_, new)) = env.iter().rev().find(|(o, _)| o == n).filter(|_| false) {
+        *n = new.clone();
+      } else {
+        let new = format!("zz{}", env.len());
+        env.push((n.clone(), new.clone()));
+        *n = new;
+      }
+    }
+    Pat::Tuple(ps) | Pat::Variant(_, ps) => ps.iter_mut().for_each(|x| level_bind(x, env)),
+    Pat::Struct(fs) => fs.iter_mut().for_each(|(_, x)| level_bind(x, env)),
+    Pat::Or(ps) => {
+      let mark = env.len();
+      if let Some((first, rest)) = ps.split_first_mut() {
+        level_bind(first, env);
+        let bound: Vec<(String, String)> = env[mark..].to_vec();
+        for alt in rest {
+          rename_pat(alt, &|n: &str| bound.iter().find(|(o, _)| o == n).map(|(_, x)| x.clone()).unwrap_or_else(|| n.to_string()));
+        }
+      }
+    }
+    Pat::Wild => {}
+  }
+}
+
+/// de-Bruijn-level renaming: every binder is named after the number of local binders in scope, so
+/// that disjoint (sibling) scopes reuse the same names while nested scopes never shadow
+fn level_rename(e: &mut Expr, env: &mut Vec<(String, String)>) {
+  match &mut e.kind {
+    EK::Var(n) => {
+      if let Some((_, new)) = env.iter().rev().find(|(o, _)| o == n) {
+        *n = new.clone();
+      }
+    }
+    EK::Lambda { params, body, .. } => {
+      let mark = env.len();
+      for (n, _) in params.iter_mut() {
+        let new = format!("zz{}", env.len());
+        env.push((n.clone(), new.clone()));
+        *n = new;
+      }
+      level_rename(body, env);
+      env.truncate(mark);
+    }
+    EK::Block { stmts, last } => {
+      let mark = env.len();
+      for s in stmts.iter_mut() {
+        match s {
+          Stmt::Let { pat, init, .. } => {
+            level_rename(init, env);
+            level_bind(pat, env);
+          }
+          Stmt::Expr(x) => level_rename(x, env),
+        }
+      }
+      if let Some(x) = last {
+        level_rename(x, env);
+      }
+      env.truncate(mark);
+    }
+    EK::IfLet { pat, scrut, then, els } => {
+      level_rename(scrut, env);
+      let mark = env.len();
+      level_bind(pat, env);
+      level_rename(then, env);
+      env.truncate(mark);
+      level_rename(els, env);
+    }
+    EK::Match { scrut, arms } => {
+      level_rename(scrut, env);
+      for (pat, body) in arms.iter_mut() {
+        let mark = env.len();
+        level_bind(pat, env);
+        level_rename(body, env);
+        env.truncate(mark);
+      }
+    }
+    EK::Tuple(es) => es.iter_mut().for_each(|x| level_rename(x, env)),
+    EK::StaticCall { args, .. } => args.iter_mut().for_each(|x| level_rename(x, env)),
+    EK::MethodCall { recv, args, .. } => {
+      level_rename(recv, env);
+      args.iter_mut().for_each(|x| level_rename(x, env));
+    }
+    EK::MethodRef { recv, .. } => level_rename(recv, env),
+    EK::Field { obj, .. } => level_rename(obj, env),
+    EK::CallValue { callee, args } => {
+      level_rename(callee, env);
+      args.iter_mut().for_each(|x| level_rename(x, env));
+    }
+    EK::Unary(_, x) | EK::Paren(x) => level_rename(x, env),
+    EK::Binary(_, a, b) => {
+      level_rename(a, env);
+      level_rename(b, env);
+    }
+    EK::If { cond, then, els } => {
+      level_rename(cond, env);
+      level_rename(then, env);
+      level_rename(els, env);
+    }
+    _ => {}
+  }
+}
+
 /// Applies one rewrite; returns a description of what changed, or None when not applicable.
 pub fn apply(p: &mut ProgramIr, t: &mut Tape, kind: &str) -> Option<String> {
   match kind {
@@ -261,6 +368,55 @@ pub fn apply(p: &mut ProgramIr, t: &mut Tape, kind: &str) -> Option<String> {
             && (pick >> (n % 31)) & 1 == 1
           {
             targs.clear();
+            n += 1;
+          }
+        });
+      }
+      if n == 0 { None } else { Some(format!("{n} calls")) }
+    }
+    "reuse-names" => {
+      // the reverse of renaming to fresh names: sibling scopes share names (see level_rename)
+      let mut n = 0;
+      for b in member_bodies(p) {
+        let mut env = vec![];
+        level_rename(b, &mut env);
+        n += 1;
+      }
+      if n == 0 { None } else { Some("all local binders named by scope level".into()) }
+    }
+    "annotate-lambda" => {
+      // parameter types the checker inferred from the context become explicit annotations
+      let mut n = 0;
+      let pick = t.raw() | 1;
+      for b in member_bodies(p) {
+        walk_expr_mut(b, &mut |e| {
+          if let EK::Lambda { annotated, params, .. } = &mut e.kind
+            && !*annotated
+            && !params.is_empty()
+          {
+            if (pick >> (n % 31)) & 1 == 1 {
+              *annotated = true;
+            }
+            n += 1;
+          }
+        });
+      }
+      if n == 0 { None } else { Some(format!("up to {n} lambdas")) }
+    }
+    "drop-type-arguments-deep" => {
+      // pre-step for annotate-lambda (not a judged rewrite): also calls without arguments, whose
+      // type arguments can only come from the expected type
+      let mut n = 0;
+      let pick = t.raw();
+      for b in member_bodies(p) {
+        walk_expr_mut(b, &mut |e| {
+          if let EK::StaticCall { targs, class, .. } = &mut e.kind
+            && !targs.is_empty()
+            && class != "Process"
+          {
+            if (pick >> (n % 31)) & 1 == 1 {
+              targs.clear();
+            }
             n += 1;
           }
         });
